@@ -293,6 +293,10 @@ pub fn run_worker(args: &[String]) -> i32 {
         continue;
       }
     };
+    let mut case = case;
+    if case.is_object() {
+      case["property"] = json!(prop.id);
+    }
     let obs = eval(&prop, &case);
     cases_run += 1;
     let fp = crate::rng::fnv(case.to_string().as_bytes());
